@@ -148,7 +148,7 @@ def main():
             replay_result(bool(pr), pr[:2])
         if REPLAY is not None and REPLAY.get("kind") == "e2e":
             import c03_e2e
-            pr = c03_e2e.run_op(REPLAY["op"], REPLAY["recursive"])
+            pr = c03_e2e.burst(REPLAY["rootkind"]) if REPLAY["op"] == "burst" else c03_e2e.run_op(REPLAY["op"], REPLAY["recursive"])
             replay_result(bool(pr), pr[:2])
         if REPLAY is not None and REPLAY.get("kind") == "phantom":
             pr = phantom()
@@ -172,6 +172,22 @@ def main():
                     pr = run_case(base, rootkind, recursive, full, shape, kind, isdir, at_root, variant)
                     if pr:
                         bat.fail(f"{WHICH}.translation", pr[0], {"rootkind": rootkind, "recursive": recursive, "full": full, "shape": shape, "kind": kind, "isdir": isdir, "at_root": at_root, "variant": variant, "problems": pr[:2]}, "InotifyEmitter.queue_events")
+        # several operations read as one batch (soundness of names), and the collision trees of the synthetic sub-event
+        # generators (C14): both are about the entry's exact name, so they run for C03 and for C19
+        import c03_e2e, c14_battery
+        for rk in ("str", "bytes"):
+            bat.case(("e2e-burst", rk))
+            pr = c03_e2e.burst(rk)
+            if pr:
+                bat.fail(f"{WHICH}.burst-soundness", pr[0], {"kind": "e2e", "op": "burst", "rootkind": rk, "recursive": True, "problems": pr[:2]}, "Inotify.read_events")
+        n = 0
+        for tree in c14_battery.trees(3)[::9]:
+            for new, old in (("a", "b"), ("b", "ab"), ("a", "")):
+                n += 1
+                bat.case(("sub-events", n))
+                pr = c14_battery.run_case(tree, new, old, "rel", "str")
+                if pr:
+                    bat.fail(f"{WHICH}.synthetic-sub-events", pr[0], {"kind": "sub", "tree": [[list(r), k] for r, k in tree], "new": new, "old": old}, "generate_sub_moved_events")
         if WHICH == "C03":
             # one operation at a time, end to end through the real emitter and kernel (+ probes of every directory afterwards)
             import c03_e2e
@@ -181,16 +197,6 @@ def main():
                     pr = c03_e2e.run_op(name, recursive)
                     if pr:
                         bat.fail("C03.per-operation-contract", pr[0], {"kind": "e2e", "op": name, "recursive": recursive, "problems": pr[:2]}, "InotifyEmitter.queue_events")
-            # the synthetic sub-events of the table are C14's generators: their collision trees are run here as well
-            import c14_battery
-            n = 0
-            for tree in c14_battery.trees(3)[::9]:
-                for new, old in (("a", "b"), ("b", "ab"), ("a", "")):
-                    n += 1
-                    bat.case(("sub-events", n))
-                    pr = c14_battery.run_case(tree, new, old, "rel", "str")
-                    if pr:
-                        bat.fail("C03.synthetic-sub-events", pr[0], {"kind": "sub", "tree": [[list(r), k] for r, k in tree], "new": new, "old": old}, "generate_sub_moved_events")
             bat.case("phantom-after-move-out")
             pr = phantom()
             if pr:
